@@ -20,7 +20,7 @@ RULE = (
 ASSUMPTIONS = ["orthogonality / projection tolerances: 1e-4 relative in float64 (the algorithm's own re-orthogonalisation threshold is 1e-5), 5e-3 in float32",
                "consumer checks use cond <= 1e3 and allow the documented tridiagonal jitter (1e-6 relative)"]
 CHUNK = 30
-CASE_TIMEOUT = 600
+CASE_TIMEOUT = 3600
 DTS = {"f64": torch.float64, "f32": torch.float32}
 
 from linear_operator.utils.lanczos import lanczos_tridiag  # noqa: E402
